@@ -102,7 +102,7 @@ def main():
                 ck.violation('%s: multiunion of %d elements in %d operands: C and Python differ (C %s %s..., Python %s %s...)' % (
                     fam, a['total'], len(a['ops']), a['kind'], str(a['got'][:12]), b['kind'], str(b['got'][:12])),
                     dict(kind='multiunion-pair-differs', fam=fam, total=a['total'], c=a['got'][:60], py=b['got'][:60]))
-    ck.assumptions += ['excluded as the property says: byValue, message texts, the return value of update()',
+    ck.assumptions += ['excluded: message texts, the return value of update(); byValue is compared (finding D50)',
                        'keys of one container mutually comparable']
     ck.finish(exhaustive=False)
 
